@@ -68,7 +68,7 @@ TObs == IsEvent("Obs") /\ (ObsOK = TRUE) /\ Silently /\ Advance
 CountsOK ==
     /\ \A i \in DOMAIN Ev.rc : LET n == Ev.rc[i].id IN n \in Ids /\ nrc[n] = Ev.rc[i].count
     /\ Ev.stray = 0
-    /\ Ev.orphans = Cardinality(leaked)
+    /\ Ev.orphans >= 0 => Ev.orphans = Cardinality(leaked)      \* (-1: no census, multi-part values present)
 TCounts == IsEvent("Counts") /\ queue = <<>> /\ (CountsOK = TRUE) /\ Silently /\ Advance
 
 TraceNext == TCommit \/ TProcess \/ TDefer \/ TSpin \/ TLock \/ TUnlock \/ TCrash \/ TRestart \/ TQuiet
